@@ -212,6 +212,7 @@ func ruleFilteredWriter(r *Run, p *Prog) {
 	if !r.Anchor(f != nil, "FILTER", "(*FilteredLevelWriter).WriteLevel") {
 		return
 	}
+	f = p.View(f, "", nil)
 	paths, complete := enumPaths(f, 1, 1000)
 	if !complete {
 		r.Fail("FILTER", FnName(f)+"/paths", p.Pos(f.Pos()), "cannot enumerate paths")
